@@ -382,3 +382,331 @@ def check_C11(run):
               nontrivial=lambda r: any(len(ch) > 1 for _, ch in r['sc'].files))
     run.cov['trusted_base'] = C.GLOBAL_TRUST + ['read(2)/write(2) on the host file system; regular files give full reads (short-read schedules are covered by the theorem only)']
     run.assumptions = ['chunk constants extracted from doer.rs on this run: first=%s growth=%s max=%s small=%s' % cfg]
+
+
+# ------------------------------------------------------------------ C16
+
+C16_FIELDS = [  # (spec-file key, CLI flag, proceed word, documented default)
+    ('dest_file_newer_behaviour', '--dest-file-newer', 'overwrite', 'p'),
+    ('dest_file_older_behaviour', '--dest-file-older', 'overwrite', 'o'),
+    ('files_same_time_behaviour', '--files-same-time', 'overwrite', 's'),
+    ('dest_entry_needs_deleting_behaviour', '--dest-entry-needs-deleting', 'delete', 'o'),
+    ('dest_root_needs_deleting_behaviour', '--dest-root-needs-deleting', 'delete', 'p'),
+]
+BEH_WORD = {'p': 'prompt', 'e': 'error', 's': 'skip'}
+BEH_DEBUG = {'p': 'Prompt', 'e': 'Error', 's': 'Skip'}
+DEPLOY_WORD = {'p': 'prompt', 'e': 'error', 'k': 'ok', 'f': 'force'}
+
+
+def beh_word(b, proceed):
+    return proceed if b == 'o' else BEH_WORD[b]
+
+
+def doc_rule(default, spec, all_, flag):
+    """the documented precedence, written down independently of model and code"""
+    if flag:
+        return flag
+    base = spec or default
+    if all_ and base != 's':
+        return all_
+    return base
+
+
+class C16Case:
+    """abstract case: optional spec file (list of syncs + root keys) and command-line options"""
+    def __init__(self):
+        self.spec_text = None; self.src = None; self.dest = None
+        self.filters = []; self.deploy = None; self.flags = [None] * 5; self.all = None; self.dry = False
+        self.expect = None   # oracle expectation for one field: (sync idx, field idx, value letter)
+
+    def argv(self, spec_path):
+        a = []
+        if self.spec_text is not None:
+            a += ['--spec', spec_path]
+        else:
+            a += [self.src, self.dest]
+        for f in self.filters:
+            a += ['--filter', f]
+        if self.deploy:
+            a += ['--deploy', DEPLOY_WORD[self.deploy]]
+        for (key, flag, proceed, _), v in zip(C16_FIELDS, self.flags):
+            if v:
+                a += [flag, beh_word(v, proceed)]
+        if self.all:
+            a += ['--all-destructive-behaviour', 'proceed' if self.all == 'o' else BEH_WORD[self.all]]
+        if self.dry:
+            a.append('--dry-run')
+        return a
+
+    def model_line(self, ytoks):
+        t = ['resolve', C.X(self.src) if self.src is not None and self.spec_text is None else '-',
+             C.X(self.dest) if self.dest is not None and self.spec_text is None else '-',
+             '1' if self.spec_text is not None else '0', str(len(self.filters))] + [C.X(f) for f in self.filters]
+        t.append(self.deploy or '-')
+        t += [v or '-' for v in self.flags] + [self.all or '-', str(int(self.dry))]
+        return ' '.join(t) + ' ' + ytoks
+
+
+def c16_run_cases(run, cases, label):
+    import tempfile, shutil
+    d = tempfile.mkdtemp(prefix='rjv-c16-')
+    try:
+        ylines, paths = [], []
+        for i, c in enumerate(cases):
+            p = os.path.join(d, f's{i}.yaml')
+            if c.spec_text is not None:
+                open(p, 'w').write(c.spec_text)
+            paths.append(p)
+            ylines.append('yaml ' + C.X(c.spec_text if c.spec_text is not None else ''))
+        yt = [a for a, _ in C.run_harness(ylines)]
+        impl = [a for a, _ in C.run_harness(['resolve ' + ' '.join([str(len(c.argv(p)))] + [C.X(x) for x in c.argv(p)]) for c, p in zip(cases, paths)])]
+        model = C.run_model([c.model_line(y if c.spec_text is not None else 'YN') for c, y in zip(cases, yt)])
+    finally:
+        shutil.rmtree(d, ignore_errors=True)
+    bad = []
+    for c, y, i_ans, m_ans in zip(cases, yt, impl, model):
+        run.case((label, c.spec_text, tuple(c.argv('SPEC'))), True,
+                 sample=dict(layer='L1', argv=c.argv('SPEC'), spec_file=c.spec_text, impl=i_ans[:400]))
+        run.count(f'{label}:{i_ans.split(":")[0]}' + (':' + i_ans.split(':')[1] if i_ans.startswith('err') else ''))
+        run.cov['traces_validated_against_impl'] += 1
+        # oracle: documented rule on the field this case is about
+        if c.expect and i_ans.startswith('ok:'):
+            si, fi, want = c.expect
+            syncs = i_ans[i_ans.index('[') + 1:].split(';')
+            got = syncs[si].rstrip(')]').split(',')[-5:][fi] if si < len(syncs) else None
+            wantw = {'p': 'Prompt', 'e': 'Error', 's': 'Skip', 'o': 'Overwrite' if fi < 3 else 'Delete'}[want]
+            if got != wantw:
+                run.violation(dict(kind='oracle-failed-on-implementation', oracle='documented precedence', layer='L1', argv=c.argv('SPEC'),
+                                   spec_file=c.spec_text, field=C16_FIELDS[fi][0], want=wantw, got=got, impl=i_ans, model=m_ans))
+                continue
+        if c.expect == 'reject' and not i_ans.startswith('err'):
+            run.violation(dict(kind='oracle-failed-on-implementation', oracle='malformed spec file is rejected', layer='L1',
+                               argv=c.argv('SPEC'), spec_file=c.spec_text, impl=i_ans, model=m_ans))
+            continue
+        if i_ans != m_ans:
+            bad.append((c, i_ans, m_ans, y))
+    run.cov['disagreements_checked'] += len(cases)
+    if bad:
+        c, i_ans, m_ans, y = bad[0]
+        run.violation(dict(kind='correspondence-broken', correspondence=f'L1/{label}', disagreeing_cases=len(bad), argv=c.argv('SPEC'),
+                           spec_file=c.spec_text, yaml_value=y, impl=i_ans, model=m_ans,
+                           note='model and implementation resolve this input differently; the documented-precedence oracle did not fail'), no_input=True)
+
+
+def spec_text_for(syncs, root=None):
+    lines = []
+    for k, v in (root or {}).items():
+        lines.append(f'{k}: {v}')
+    lines.append('syncs:')
+    for s in syncs:
+        first = True
+        for k, v in s.items():
+            lines.append(('  - ' if first else '    ') + f'{k}: {v}')
+            first = False
+    return '\n'.join(lines) + '\n'
+
+
+@prop('C16')
+def check_C16(run):
+    if not prepare(run):
+        return
+    def on_broken(failed):
+        return None   # the exhaustive product below is the search: it runs anyway and reports the failing argv
+    C.proofs_step(run, 'C16', on_broken)
+    st = run.extract_status
+    broken = {k: v for k, v in st.items() if isinstance(v, str) and 'not recognised' in v and
+              k.split(':')[0] in ('default', 'all-destructive', 'flag-override', 'filters-replace', 'deploy-override')}
+    if broken:
+        run.cov['extraction_unrecognised'] = broken
+    rng = run.rng
+    thorough = run.tier == 'thorough'
+    run.cov['rule'] = ('L1: the real clap parser + resolve_spec (+ yaml-rust + parse_spec_file) on argument vectors and spec files; '
+                       'the whole per-field product {absent,4}^3 x 5 fields exhaustively, random joint assignments with several syncs, '
+                       'mutated spec texts, path-argument strings; oracle = documented precedence written independently; every case non-trivial; distinct by (argv, spec text)')
+    cases = []
+    vals = [None, 'p', 'e', 's', 'o']
+    for fi, (key, flag, proceed, dflt) in enumerate(C16_FIELDS):
+        for spec in vals:
+            for all_ in vals:
+                for fl in vals:
+                    c = C16Case()
+                    s = {'src': 'a', 'dest': 'b'}
+                    if spec:
+                        s[key] = beh_word(spec, proceed)
+                    c.spec_text = spec_text_for([s])
+                    c.all = all_; c.flags[fi] = fl
+                    c.expect = (0, fi, doc_rule(dflt, spec, all_, fl))
+                    cases.append(c)
+        # without a spec file
+        for all_ in vals:
+            for fl in vals:
+                c = C16Case(); c.src, c.dest = 'h:a', 'b'
+                c.all = all_; c.flags[fi] = fl
+                c.expect = (0, fi, doc_rule(dflt, None, all_, fl))
+                cases.append(c)
+    c16_run_cases(run, cases, 'per-field-product')
+    run.cov['exhaustive_per_field_product'] = True
+    # joint assignments
+    cases = []
+    for _ in range(600 if not thorough else 6000):
+        c = C16Case()
+        nsync = rng.choice([0, 1, 1, 2, 3])
+        use_spec = rng.random() < 0.7
+        c.all = rng.choice(vals); c.flags = [rng.choice(vals) for _ in range(5)]
+        c.deploy = rng.choice([None, 'p', 'e', 'k', 'f']); c.dry = rng.random() < 0.3
+        c.filters = rng.sample(['+a', '-b.*', '+.*\\.txt', '-'], rng.choice([0, 0, 1, 2]))
+        if use_spec:
+            syncs, specvals = [], []
+            for _ in range(nsync):
+                s = {'src': rng.choice(['a', '/x/y', 'C:\\\\d', '"q r"']), 'dest': rng.choice(['b', 'd/', '"é"'])}
+                sv = []
+                for key, _, proceed, dflt in C16_FIELDS:
+                    v = rng.choice(vals); sv.append(v)
+                    if v:
+                        w = beh_word(v, proceed)
+                        s[key] = rng.choice([w, w.upper(), w.capitalize()])
+                if rng.random() < 0.4:
+                    s['filters'] = rng.choice(['[ "+x", "-y" ]', '[]', '["-z"]'])
+                syncs.append(s); specvals.append(sv)
+            root = {}
+            if rng.random() < 0.4: root['src_hostname'] = 'h1'
+            if rng.random() < 0.3: root['dest_username'] = 'u2'
+            if rng.random() < 0.3: root['deploy_behaviour'] = rng.choice(['ok', 'Force', 'error', 'prompt'])
+            c.spec_text = spec_text_for(syncs, root) if nsync else 'syncs: []\n'
+            if nsync:
+                si, fi = rng.randrange(nsync), rng.randrange(5)
+                c.expect = (si, fi, doc_rule(C16_FIELDS[fi][3], specvals[si][fi], c.all, c.flags[fi]))
+        else:
+            c.src = rng.choice(['a', 'u@h:p', 'h:p', 'C:\\x', 'C:', 'ab:c', '@h:p', 'u@:p', ':p', 'h:', 'é:x', 'a:b:c', 'u@h@i:p'])
+            c.dest = rng.choice(['b', 'h2:/d/', 'D:\\y\\'])
+            fi = rng.randrange(5)
+            c.expect = (0, fi, doc_rule(C16_FIELDS[fi][3], None, c.all, c.flags[fi]))
+        cases.append(c)
+    c16_run_cases(run, cases, 'joint')
+    # mutated spec texts
+    good = spec_text_for([{'src': 'a', 'dest': 'b', 'filters': '[ "+x" ]', 'dest_file_newer_behaviour': 'error'}, {'src': 'c', 'dest': 'd'}],
+                         {'src_hostname': 'h', 'deploy_behaviour': 'ok'})
+    bad_specs = ['', '[1, 2]', 'just a string', 'syncs: 3', 'syncs: [ 1 ]', 'syncs: [ [ ] ]', 'syncs:\n  - src: a\n', 'syncs:\n  - dest: b\n',
+                 'syncs:\n  - src: ""\n    dest: b\n', 'syncs:\n  - src: a\n    dest: ""\n', 'syncs:\n  - src: a\n    dest: b\n    bogus: 1\n',
+                 'bogus: 1\nsyncs: []\n', 'syncs:\n  - src: a\n    dest: b\n    filters: "+x"\n', 'syncs:\n  - src: a\n    dest: b\n    filters: [ 1 ]\n',
+                 'syncs:\n  - src: a\n    dest: b\n    dest_file_newer_behaviour: maybe\n', 'syncs:\n  - src: a\n    dest: b\n    dest_entry_needs_deleting_behaviour: overwrite\n',
+                 'syncs:\n  - src: 5\n    dest: b\n', 'src_hostname: [a]\nsyncs: []\n', 'deploy_behaviour: proceed\nsyncs: []\n', '1: 2\n', 'syncs: [\n', '{ unbalanced',
+                 'syncs:\n  - src: a\n    dest: b\n    1: 2\n', 'syncs:\n  - src: a\n    dest: b\n    dest_root_needs_deleting_behaviour: [delete]\n',
+                 '? [complex, key]\n: value\n', 'syncs: ~\n', 'syncs: {a: b}\n']
+    cases = []
+    for t in bad_specs:
+        c = C16Case(); c.spec_text = t; c.expect = 'reject'; cases.append(c)
+    toks = ['syncs', 'src', 'dest', ':', '-', '[', ']', '"', '\n', '  ', 'filters', 'error', '1', '~', '&a', '*a', '---\n', '#', '{', '}', ',', 'é', 'deploy_behaviour']
+    for _ in range(200 if not thorough else 3000):
+        t = good
+        for _ in range(rng.randint(1, 3)):
+            i = rng.randrange(len(t) + 1)
+            r = rng.random()
+            if r < 0.4:
+                t = t[:i] + rng.choice(toks) + t[i:]
+            elif r < 0.7:
+                j = min(len(t), i + rng.randint(1, 8)); t = t[:i] + t[j:]
+            else:
+                j = min(len(t), i + rng.randint(1, 8)); t = t[:i] + t[i:j] + t[i:]
+        c = C16Case(); c.spec_text = t; cases.append(c)
+    c16_run_cases(run, cases, 'spec-text')
+    # path arguments
+    strs = ['', 'f', 'h:f', 'u@h:f', 'C:', 'C:\\', 'C:\\x', 'C:x', 'C:/x', 'ab:\\x', '@h:f', 'u@:f', ':f', 'h:', 'u@h:', 'u@h@i:f', 'a:b:c', 'é:', 'é:\\x', '1:\\', 'h:\\x', ' :x', 'u@h', '@', 'a@b@c', '::', ':', 'x:', '\\:a']
+    strs += [''.join(rng.choice(['a', ':', '@', '\\', 'C', 'é', '/']) for _ in range(rng.randint(0, 6))) for _ in range(400 if not thorough else 5000)]
+    impl = [a for a, _ in C.run_harness(['rpd ' + C.X(s) for s in strs])]
+    model = C.run_model(['rpd ' + C.X(s) for s in strs])
+    for s, i_ans, m_ans in zip(strs, impl, model):
+        run.case(('rpd', s), ':' in s, sample=None)
+        run.count('path-arg:' + i_ans[:3]); run.cov['traces_validated_against_impl'] += 1
+        if i_ans != m_ans:
+            run.violation(dict(kind='correspondence-broken', correspondence='L1/path-argument', input=s, impl=i_ans, model=m_ans), no_input=True)
+            break
+    run.cov['disagreements_checked'] += len(strs)
+    run.cov['trusted_base'] = C.GLOBAL_TRUST + ['yaml-rust (text -> value) and clap (argv -> options) are used as they are; the model starts at the YAML value and at the option values',
+                                                'extractor extract_more.defaults: recognises the five all-destructive blocks, the five flag overrides, the defaults']
+    run.assumptions = ['extraction status: ' + json.dumps(broken)] if broken else []
+
+
+# ------------------------------------------------------------------ C06
+
+def c06_paths(rng):
+    names = ['build', 'builder.txt', 'dist', 'mydist', 'distx', 'a', 'b', 'ab', 'a.b', 'src', 'x y', 'é', 'A', 'Build', 'ok.txt', 'c_d', 'a-1']
+    paths = set()
+    for _ in range(rng.randint(3, 8)):
+        p = '/'.join(rng.choice(names) for _ in range(rng.randint(1, 3)))
+        paths.add(p)
+    paths.add('')
+    return sorted(paths)
+
+
+@prop('C06')
+def check_C06(run):
+    from . import regexgen as G
+    if not prepare(run):
+        return
+    rng = run.rng
+    thorough = run.tier == 'thorough'
+    run.cov['rule'] = ('L1: the real compile_filters + apply_filters on generated (filter list, path) pairs; patterns from a grammar over the modelled subset '
+                       '(literals that are prefixes/suffixes/substrings of the paths, classes, quantifiers, groups, top-level and nested alternation, (?i:), anchors, {n,m}); '
+                       'oracle = every pattern compiled as \\A(?:p)\\z by the regex crate + the documented fold rule; an out-of-subset stream is judged by the oracle only; '
+                       'non-trivial = some filter has alternation/quantifier and the verdicts over the paths are not all equal; distinct by request line')
+    cases = []   # (filters text, filter asts or None, paths)
+    for _ in range(1500 if not thorough else 30000):
+        paths = c06_paths(rng)
+        words = [w for p in paths for w in p.split('/') if w] or ['a']
+        nf = rng.choice([0, 1, 1, 2, 3, 4])
+        asts = [(rng.choice('+-'), G.gen_re(rng, rng.randint(0, 3), words)) for _ in range(nf)]
+        cases.append(([s + G.render(a, 0, rng) for s, a in asts], asts, paths))
+    for _ in range(300 if not thorough else 5000):
+        paths = c06_paths(rng)
+        fl = [rng.choice('+-') + rng.choice(G.OUT_OF_SUBSET) for _ in range(rng.randint(1, 3))]
+        cases.append((fl, None, paths))
+    # corpus first
+    cd = os.path.join(C.V, 'corpus', 'C06')
+    corpus = []
+    if os.path.isdir(cd):
+        for f in sorted(os.listdir(cd)):
+            j = json.load(open(os.path.join(cd, f)))
+            corpus.append((j['filters'], None, j['paths']))
+    cases = corpus + cases
+    hlines = ['filt ' + ' '.join([str(len(f))] + [C.X(x) for x in f] + [str(len(p))] + [C.X(x) for x in p]) for f, _, p in cases]
+    impl = [a for a, _ in C.run_harness(hlines)]
+    midx = [i for i, c in enumerate(cases) if c[1] is not None]
+    mlines = []
+    for i in midx:
+        f, asts, p = cases[i]
+        t = ['filt', str(len(asts))]
+        for s, a in asts:
+            t += [s] + G.tokens(a)
+        t += [str(len(p))] + [C.X(x) for x in p]
+        mlines.append(' '.join(t))
+    model = dict(zip(midx, C.run_model(mlines)))
+    oracle_fail, disagree = [], []
+    for i, ((f, asts, p), ans) in enumerate(zip(cases, impl)):
+        iv = ans.split(' ')[0].split('=')[1] if ans.startswith('impl=') else ans
+        ov = ans.split(' ')[1].split('=')[1] if ' oracle=' in ans else '?'
+        nt = bool(asts) and any(G.has(a, ('|', '*', '+', '?', 'rep')) for _, a in asts) and len(set(iv)) > 1
+        run.case(('filt', tuple(f), tuple(p)), nt, sample=dict(layer='L1', filters=f, paths=p, impl=iv, oracle=ov) if nt else None)
+        run.count('filters:' + ('in-subset' if asts is not None else 'out-of-subset') + (':err' if iv in ('err', 'panic') else ''))
+        run.cov['traces_validated_against_impl'] += 1
+        if iv == 'panic' or (ov != 'err' and iv != 'err' and iv != ov):
+            bad = [p[k] for k in range(len(p)) if k < len(iv) and k < len(ov) and iv[k] != ov[k]]
+            oracle_fail.append(dict(filters=f, paths=p, differing_paths=bad, impl=iv, oracle=ov, model=model.get(i)))
+        elif i in model and iv != 'err' and model[i] != 'impl=' + iv:
+            disagree.append(dict(filters=f, paths=p, impl=iv, oracle=ov, model=model[i], request_line=mlines[midx.index(i)]))
+    run.cov['disagreements_checked'] += len(cases)
+
+    def on_broken(failed):
+        if oracle_fail:
+            o = min(oracle_fail, key=lambda o: (len(o['filters']), sum(len(x) for x in o['filters'])))
+            return dict(layer='L1', found_by='differential stream with the whole-path oracle', **o)
+        return None
+    C.proofs_step(run, 'C06', on_broken)
+    if oracle_fail and not run.violations:
+        o = min(oracle_fail, key=lambda o: (len(o['filters']), sum(len(x) for x in o['filters'])))
+        run.violation(dict(kind='oracle-failed-on-implementation', oracle='whole-path match + last match wins', layer='L1', failing_cases=len(oracle_fail), **o))
+    if disagree and not run.violations:
+        run.violation(dict(kind='correspondence-broken', correspondence='L1/filter-verdict', disagreeing_cases=len(disagree), **disagree[0],
+                           note='model and implementation differ; the whole-path oracle agrees with the implementation'), no_input=True)
+    run.cov['trusted_base'] = C.GLOBAL_TRUST + ['the regex crate implements its documented semantics (it is also the oracle\'s engine, with \\A(?:p)\\z)',
+                                                'the AST-level model of how the text pre++p++post parses (concatenation binds tighter than |) is validated against the crate by this stream']
